@@ -29,7 +29,8 @@ C14_MainAfterAllInit(X) ==
   \* a main loop only starts after every producer was initialised (so not at all when an initialisation fails)
   /\ \A i \in AnyPos(X, "main_begin") : \A p \in 1..NP(X.cfg) : \E j \in Pos(X, "init_end", p) : j < i
   /\ (InitFails(X.cfg) => AnyPos(X, "main_begin") = {})
-C14_FinalizedOnce(X) == \A p \in 1..NP(X.cfg) : Cardinality(Pos(X, "fin", p)) = 1
+\* exactly one finalize() per producer, and it is over (returned or raised) by the time run() ends
+C14_FinalizedOnce(X) == \A p \in 1..NP(X.cfg) : Cardinality(Pos(X, "fin", p)) = 1 /\ Cardinality(Pos(X, "fin_end", p)) = 1
 C14_FinalizeLast(X) == \A i \in AnyPos(X, "fin") : \A j \in AnyPos(X, "handler") \cup AnyPos(X, "main_begin") : j < i
 C14_Outcome(X) == X.outcome \in ExpectedOutcomes(X.cfg)
 \* prompt: handlers still in flight are cancelled, not awaited (they would run for an hour)
